@@ -320,8 +320,10 @@ def write_evidence(ctx: Ctx, thm: dict, coverage: dict, violations: int, assumpt
         "coverage": cov, "assumptions": assumptions,
         "wall_s": round(time.time() - ctx.t0, 2), "violations": violations,
     }
-    d = VERIF / "evidence"
-    d.mkdir(exist_ok=True)
+    # evidence/ holds runs against /repo only; a run pointed at another copy (VERIF_REPO, used by the seeded-change
+    # tools) records what it covered under .work/evidence-other/ so that the registered evidence is never overwritten
+    d = VERIF / "evidence" if REPO == Path("/repo") else VERIF / ".work" / "evidence-other"
+    d.mkdir(parents=True, exist_ok=True)
     (d / f"{ctx.pid}.json").write_text(json.dumps(ev, indent=1, default=str))
 
 
